@@ -224,6 +224,30 @@ def run(rep, tier, seed):
     from contracts.c10_norms import all_contracts
     cs, table = all_contracts(tier)
     run_contracts(rep, cs, table, tier=tier, replayers=[(r"_p_norm\..*(preserve|ensures|defined)", _replay_segment)])
+    # grid landscapes: sup norm, conversion of values to (node, value) pairs, p-norm entry point
+    from contracts.c10_norms import approx_contracts
+
+    def _replay_classes(a):
+        class C:
+            def __init__(self):
+                self.v = []
+
+            def violation(self, what, sig, payload, **k):
+                self.v.append((what, sig, payload))
+
+            def note(self, *a):
+                pass
+
+            def bounded(self, *a, **k):
+                pass
+        c = C()
+        _standin_classes(c, "quick", random.Random(3))
+        if c.v:
+            what, sig, payload = c.v[0]
+            return True, payload, sig, what
+        return False, None, None, None
+    for cs2, t2 in approx_contracts(tier):
+        run_contracts(rep, cs2, t2, tier=tier, pid="C10", replayers=[(r"PersLandscape", _replay_classes)])
     rep.assume("calculus: the closed form seg_int is the integral of |y|^p over a linear segment (checked numerically against scipy quad in the stand-in)",
                "L11 sup of a piecewise-linear function is attained at a breakpoint", "L15 Minkowski (norm laws), L16 landscape stability - sampled only")
     _standin(rep, tier, seed)
